@@ -7,8 +7,10 @@ package main
 import (
 	"encoding/json"
 	"fmt"
+	"os"
 	"sort"
 	"strings"
+	"sync"
 	"time"
 
 	"github.com/ozontech/file.d/fd"
@@ -44,6 +46,10 @@ type childLine struct {
 	TooBig  int                `json:"too_big,omitempty"` // output larger than the harness cap: its size
 	Err     string             `json:"err,omitempty"`
 	Us      int64              `json:"us,omitempty"` // duration of the command (diagnostics)
+	// parallel pass ("parcmd" before, "par" after): output per (round, event),
+	// index = round*len(events)+event; "" = not delivered
+	Outs  []string `json:"outs,omitempty"`
+	Procs int      `json:"procs,omitempty"`
 }
 
 func metricSnapshot(reg *prometheus.Registry, names []string) map[string]float64 {
@@ -89,6 +95,122 @@ func watchedMetrics(cfg *pluginCfg) []string {
 }
 
 func runCaseInChild(tc *testCase, ci int, from int, onlyOne bool, io *core.ChildIO) error {
+	if err := runSeqInChild(tc, ci, from, onlyOne, io); err != nil {
+		return err
+	}
+	if tc.Par > 0 && !onlyOne {
+		return runParInChild(tc, ci, io)
+	}
+	return nil
+}
+
+// runParInChild: the events of the case, tc.Par times over, through a pipeline
+// with the default GOMAXPROCS*2 processors. file.d starts one plugin instance
+// per processor from the same config pointer; 4 feeders spread the events over
+// 12 sources so that several instances work at once. What comes out is keyed
+// by the offset given to In.
+func runParInChild(tc *testCase, ci int, io *core.ChildIO) error {
+	cfgJSON, err := json.Marshal(&tc.Config)
+	if err != nil {
+		return err
+	}
+	info, err := fd.DefaultPluginRegistry.Get(pipeline.PluginKindAction, "mask")
+	if err != nil {
+		return err
+	}
+	config, err := pipeline.GetConfig(info, cfgJSON, nil)
+	if err != nil {
+		return nil // reported by the sequential pass
+	}
+	total := tc.Par * len(tc.Events)
+	settings := &pipeline.Settings{
+		Capacity:            total + 16, // nobody waits for a free event
+		MaintenanceInterval: time.Second * 5,
+		EventTimeout:        pipeline.DefaultEventTimeout,
+		Antispam:            pipeline.AntispamSettings{Threshold: pipeline.DefaultAntispamThreshold},
+		AvgEventSize:        128,
+		MetaCacheSize:       32,
+		StreamField:         "c17_stream_field_never_present",
+		Decoder:             "json",
+		Metric: &pipeline.MetricSettings{
+			HoldDuration:        pipeline.DefaultMetricHoldDuration,
+			MaxLabelValueLength: pipeline.DefaultMetricMaxLabelValueLength,
+		},
+	}
+	p := pipeline.New(fmt.Sprintf("c17_par_%d", ci), settings, prometheus.NewRegistry(), zap.NewNop())
+	inAny, _ := fake.Factory()
+	input := inAny.(*fake.Plugin)
+	p.SetInput(&pipeline.InputPluginInfo{
+		PluginStaticInfo:  &pipeline.PluginStaticInfo{Type: "fake"},
+		PluginRuntimeInfo: &pipeline.PluginRuntimeInfo{Plugin: input},
+	})
+	outAny, _ := devnull.Factory()
+	output := outAny.(*devnull.Plugin)
+	p.SetOutput(&pipeline.OutputPluginInfo{
+		PluginStaticInfo:  &pipeline.PluginStaticInfo{Type: "devnull"},
+		PluginRuntimeInfo: &pipeline.PluginRuntimeInfo{Plugin: output},
+	})
+	infoCopy := *info
+	infoCopy.Config = config
+	infoCopy.Type = "mask"
+	p.AddAction(&pipeline.ActionPluginStaticInfo{
+		PluginStaticInfo: &infoCopy,
+		MatchMode:        pipeline.MatchModeAnd,
+	})
+	var mu sync.Mutex
+	outs := make([]string, total)
+	twice := -1
+	got := make(chan struct{}, total+16)
+	output.SetOutFn(func(e *pipeline.Event) {
+		s := e.Root.EncodeToString()
+		if len(s) > outputCap {
+			s = s[:outputCap]
+		}
+		mu.Lock()
+		if e.Offset >= 0 && int(e.Offset) < total {
+			if outs[e.Offset] != "" {
+				twice = int(e.Offset)
+			}
+			outs[e.Offset] = s
+		}
+		mu.Unlock()
+		got <- struct{}{}
+	})
+	io.Log(childLine{T: "parcmd", Case: ci})
+	p.Start()
+	defer p.Stop()
+	const feeders, sources = 4, 12
+	for f := 0; f < feeders; f++ {
+		go func(f int) {
+			for i := f; i < total; i += feeders {
+				src := pipeline.SourceID(i % sources)
+				input.In(src, fmt.Sprintf("c17-%d.log", src), pipeline.NewOffsets(int64(i), nil), []byte(tc.Events[i%len(tc.Events)]))
+			}
+		}(f)
+	}
+	line := childLine{T: "par", Case: ci, Procs: len(p.Procs)}
+	timer := time.NewTimer(2 * time.Minute)
+	defer timer.Stop()
+wait:
+	for n := 0; n < total; n++ {
+		select {
+		case <-got:
+		case <-timer.C:
+			line.Timeout = true
+			break wait
+		}
+	}
+	mu.Lock()
+	line.Outs = append([]string(nil), outs...)
+	if twice >= 0 {
+		line.Err = fmt.Sprintf("offset %d reached the output twice", twice)
+	}
+	mu.Unlock()
+	io.Log(line)
+	return nil
+}
+
+func runSeqInChild(tc *testCase, ci int, from int, onlyOne bool, io *core.ChildIO) error {
 	cfgJSON, err := json.Marshal(&tc.Config)
 	if err != nil {
 		return err
@@ -119,7 +241,7 @@ func runCaseInChild(tc *testCase, ci int, from int, onlyOne bool, io *core.Child
 		},
 	}
 	reg := prometheus.NewRegistry()
-	p := pipeline.New(fmt.Sprintf("c17_%d", ci), settings, reg, zap.NewNop())
+	p := pipeline.New(fmt.Sprintf("c17_%d", ci), settings, reg, dbgLogger())
 	p.DisableParallelism()
 
 	inAny, _ := fake.Factory()
@@ -202,4 +324,14 @@ func childMain(raw json.RawMessage, io *core.ChildIO) (any, error) {
 	}
 	io.Log(childLine{T: "done"})
 	return map[string]bool{"ok": true}, nil
+}
+
+// dbgLogger: VERIF_C17_DEBUG=1 makes the pipeline (and so the plugin) log to
+// stderr - a plugin that refuses a configuration with logger.Fatal otherwise
+// ends the child without a word.
+func dbgLogger() *zap.Logger {
+	if os.Getenv("VERIF_C17_DEBUG") != "" {
+		return zap.NewExample()
+	}
+	return zap.NewNop()
 }
